@@ -314,6 +314,23 @@ func genC03(o *Out, r *rand.Rand, thorough bool) {
 		emit([]string{"full-static", "nup-static", "full-quiet~"}[i%3], fen.Initial, h, []string{fmt.Sprintf("s:%d:%s:0", 1+i%2, fullWin)})
 		o.Count("history:repetition")
 	}
+	// draws that arise exactly at the search horizon (capture into insufficient material, the clock
+	// reaching 100, a third occurrence completed by the last ply)
+	for _, h := range []struct {
+		fen   string
+		moves []string
+		d     int
+	}{
+		{"k7/8/8/3p4/4B3/8/8/6K1 w - - 0 1", nil, 1}, {"k7/8/8/3p4/4B3/8/8/6K1 w - - 0 1", nil, 3},
+		{"4k3/8/8/8/8/8/4P3/R3K3 w - - 99 60", nil, 1}, {"4k3/8/8/8/8/8/4P3/R3K3 w - - 98 60", nil, 2},
+		{"4k3/8/8/8/8/8/4P3/R3K3 b - - 97 60", nil, 3},
+		{"6k1/8/8/8/8/8/3n4/R3K3 w - - 0 1", []string{"m:a1a2", "m:g8h8", "m:a2a1", "m:h8g8", "m:a1a2", "m:g8h8", "m:a2a1"}, 1},
+		{"6k1/8/8/8/8/8/3n4/R3K3 w - - 0 1", []string{"m:a1a2", "m:g8h8", "m:a2a1", "m:h8g8", "m:a1a2", "m:g8h8"}, 2},
+		{"8/8/8/8/8/2k5/3n4/3K4 w - - 3 1", nil, 1}, {"8/8/4k3/8/8/3bB3/8/4K3 w - - 0 1", nil, 2}, {"8/5P2/8/8/8/2k5/6b1/3K4 w - - 0 1", nil, 2},
+	} {
+		emit([]string{"full-static", "nup-static", "full-quiet"}[r.Intn(3)], h.fen, h.moves, []string{fmt.Sprintf("s:%d:%s:0", h.d, fullWin)})
+		o.Count("history:horizon-draw")
+	}
 	emit("full-static", "r3k2r/8/8/8/8/8/8/R3K2R w KQkq - 98 60", []string{"m:e1g1"}, []string{"s:2:" + fullWin + ":0"})
 	emit("full-static", "4k3/8/8/8/8/8/4p3/R3K3 w Q - 99 60", nil, []string{"s:3:" + fullWin + ":0"})
 	for i := 0; i < n; i++ {
@@ -323,6 +340,11 @@ func genC03(o *Out, r *rand.Rand, thorough bool) {
 		emit(cfg, start, moves, []string{fmt.Sprintf("s:%d:%s:0", d, fullWin)})
 		o.Count(fmt.Sprintf("depth:%d", d))
 	}
+	dn := 12
+	if thorough {
+		dn = 300
+	}
+	deepOracle(o, r, dn)
 	// the repository's own reference search as a second opinion at greater depth (implementation only)
 	m := 40
 	if thorough {
@@ -363,11 +385,32 @@ func randomBound(r *rand.Rand) string {
 }
 
 func genC13(o *Out, r *rand.Rand, thorough bool) {
-	n := 300
+	n := 200
 	if thorough {
 		n = 8000
 	}
 	o.do(ztableLine(0))
+	// stalemates and mates under narrowed windows (the quiescence search must rate them exactly, also
+	// when the stalemated side is ahead in material and the static value is above beta)
+	for _, f := range []string{
+		"8/8/7p/7p/7p/7P/p1K5/k7 b - - 0 1", "8/8/7p/7p/7p/7P/p2K4/k7 w - - 0 1", "K7/P1k5/7p/7P/7P/7P/8/8 w - - 0 1",
+		"K7/P2k4/7p/7P/7P/7P/8/8 b - - 0 1", "7k/5Q2/6K1/8/8/8/8/8 b - - 0 1", "7k/6Q1/6K1/8/8/8/8/8 b - - 0 1", "k7/P7/K7/8/8/8/8/8 b - - 0 1",
+	} {
+		for _, cfg := range []string{"full-quiet", "nup-quiet", "full-static"} {
+			var items []string
+			for d := 0; d <= 2; d++ {
+				items = append(items, fmt.Sprintf("s:%d:%s:0", d, fullWin))
+				for _, w := range [][2]float32{{-1, 1}, {-5, 2}, {0, 3}, {-4, -1}, {2, 6}, {-3, 0}} {
+					items = append(items, fmt.Sprintf("s:%d:H:0:%d:H:0:%d:0", d, f32key(eval.Pawns(w[0])), f32key(eval.Pawns(w[1]))))
+				}
+				items = append(items, fmt.Sprintf("s:%d:M:-3:0:H:0:%d:0", d, f32key(2)), fmt.Sprintf("s:%d:H:0:%d:M:3:0:0", d, f32key(-2)))
+			}
+			line := fmt.Sprintf("search 0 %s 0 0 %s ; %s", cfg, f, strings.Join(items, " "))
+			o.do(line)
+			o.Count("terminal-under-window")
+			o.Nontrivial(line)
+		}
+	}
 	for i := 0; i < n; i++ {
 		start, moves, b := randomLine(r, 16)
 		cfg := pickCfg(r, b)
@@ -487,6 +530,16 @@ func genC11(o *Out, r *rand.Rand, thorough bool) {
 	}
 }
 
+func init() {
+	register("c11deep", func(o *Out, r *rand.Rand, thorough bool) {
+		n := 12
+		if thorough {
+			n = 400
+		}
+		ttSequenceOracle(o, r, n)
+	})
+}
+
 func genC12(o *Out, r *rand.Rand, thorough bool) {
 	n := 40
 	if thorough {
@@ -494,6 +547,33 @@ func genC12(o *Out, r *rand.Rand, thorough bool) {
 	}
 	o.do(ztableLine(0))
 	sizes := []int{0, 64, 1 << 12, 1 << 20}
+	// roots at which a draw can be claimed (third occurrence, clock at 100): halting must hand the board
+	// back with that result intact
+	for _, h := range []struct {
+		fen   string
+		moves string
+	}{
+		{fen.Initial, "m:g1f3 m:g8f6 m:f3g1 m:f6g8 m:g1f3 m:g8f6 m:f3g1 m:f6g8"},
+		{"4k3/8/8/8/8/8/4P3/R3K3 w - - 99 60", "m:a1a2"},
+		{"6k1/8/8/8/8/8/3n4/R3K3 w - - 0 1", "m:a1a2 m:g8h8 m:a2a1 m:h8g8 m:a1a2 m:g8h8 m:a2a1 m:h8g8"},
+	} {
+		b := boardFromLine(h.fen, strings.Split(h.moves, " "))
+		for _, d := range []int{1, 2} {
+			ab, _ := searchCfg("full-static")
+			ctx := newPollCtx(0)
+			ab.Search(ctx, &search.Context{TT: search.NoTranspositionTable{}}, b.Fork(), d)
+			ks := []int{1, 2, 3, 4, ctx.polls / 2, ctx.polls - 1, ctx.polls, ctx.polls + 1}
+			for _, k := range ks {
+				if k < 1 {
+					continue
+				}
+				line := fmt.Sprintf("search 0 full-static 0 0 %s ; %s s:%d:%s:%d s:%d:%s:0", h.fen, h.moves, d, fullWin, k, d, fullWin)
+				o.do(line)
+				o.Count("cancel-points:drawn-root")
+				o.Nontrivial(line)
+			}
+		}
+	}
 	for i := 0; i < n; i++ {
 		start, moves, b := noRepeatLine(r, 10)
 		cfg := pickCfg(r, b)
